@@ -520,12 +520,18 @@ impl Retrier {
                     Err(e) => {
                         match e {
                             AddAppointmentError::RequestError(e) => {
+                                // Either the tower cannot be reached or it is not answering properly. Back off in both
+                                // cases (otherwise the same request would be sent over and over with no pause).
                                 if e.is_connection() {
                                     log::warn!(
                                         "{tower_id} cannot be reached. Tower will be retried later"
                                     );
-                                    return Err(Error::transient(RetryError::Unreachable));
+                                } else {
+                                    log::warn!(
+                                        "Unexpected response from {tower_id} ({e:?}). Tower will be retried later"
+                                    );
                                 }
+                                return Err(Error::transient(RetryError::Unreachable));
                             }
                             AddAppointmentError::ApiError(e) => match e.error_code {
                                 errors::INVALID_SIGNATURE_OR_SUBSCRIPTION_ERROR => {
